@@ -18,8 +18,9 @@ def shard(spec) -> Acc:
     acc.states = total["states"]
     for outcome in total["outcomes"]:
         acc.outcome((str(spec["params"]), outcome))
-    if total["executions"] > 1:
-        acc.nontrivial.add(str(spec["params"]).encode())
+    # every explored choice list is distinct by construction; the ones that deviate from the
+    # default schedule are the non-trivial ones
+    acc.nontrivial_count = total["deviating"]
     for sample in total["samples"][:1]:
         if sample["choices"]:
             acc.samples.append(sample)
